@@ -58,6 +58,9 @@ func (c *vclock) armed(seam int) bool {
 }
 
 // pass holds the calling goroutine while the seam is armed and not released.
+// (Not inlined: the rest detection of runner.go looks for this frame.)
+//
+//go:noinline
 func (c *vclock) pass(seam int) {
 	c.mu.Lock()
 	for c.armed(seam) && !c.released {
